@@ -643,11 +643,12 @@ fn c16_malformed(rep: &mut Report) {
     });
     rep.count("c16.malformed-exports", 1);
     // "skipped" means skipped entirely: every export of up to 3 entries over {PUBLISH q1 id1, PUBLISH q2 id1,
-    // PUBLISH q0, PUBREL id1, PUBLISH q1 id2} leaves the object exactly as the export without the skipped
+    // PUBLISH q0, PUBREL id1, PUBLISH q1 id2, a PUBLISH of the other protocol version} leaves the object exactly as the export without the skipped
     // entries does (first entry per identifier wins, QoS 0 entries never count)
     let mut n_exports = 0u64;
     for ver in [Ver::V4, Ver::V5] {
-        let kinds: Vec<(u8, u32)> = vec![(1, 1), (2, 1), (0, 0), (3, 1), (1, 2)];
+        // (QoS | 3 = PUBREL | 11 = PUBLISH QoS 1 of the *other* protocol version, id)
+        let kinds: Vec<(u8, u32)> = vec![(1, 1), (2, 1), (0, 0), (3, 1), (1, 2), (11, 3)];
         let mut seqs: Vec<Vec<usize>> = vec![];
         for a in 0..kinds.len() {
             seqs.push(vec![a]);
@@ -664,7 +665,10 @@ fn c16_malformed(rep: &mut Report) {
             let sq2 = sq.clone();
             let r = guarded(move || {
                 let mk = |k: (u8, u32)| -> GenericStorePacket<u16> {
-                    let p: GenericPacket<u16> = if k.0 == 3 {
+                    let other = if ver == Ver::V4 { Ver::V5 } else { Ver::V4 };
+                    let p: GenericPacket<u16> = if k.0 == 11 {
+                        bridge::build::<u16>(&AP::Publish { ver: other, dup: true, qos: 1, retain: false, topic: b"a".to_vec(), pid: Some(k.1), props: vec![], payload: b"p".to_vec() }).ok().unwrap()
+                    } else if k.0 == 3 {
                         bridge::build::<u16>(&AP::Ack { ver, kind: AckKind::Pubrel, pid: k.1, code: None, props: None }).ok().unwrap()
                     } else {
                         bridge::build::<u16>(&AP::Publish { ver, dup: k.0 > 0, qos: k.0, retain: false, topic: b"a".to_vec(), pid: if k.0 > 0 { Some(k.1) } else { None }, props: vec![], payload: b"p".to_vec() }).ok().unwrap()
@@ -679,7 +683,7 @@ fn c16_malformed(rep: &mut Report) {
                 };
                 let full: Vec<(u8, u32)> = sq2.iter().map(|i| kinds2[*i]).collect();
                 let mut seen = std::collections::BTreeSet::new();
-                let clean: Vec<(u8, u32)> = full.iter().copied().filter(|k| k.0 != 0 && seen.insert(k.1)).collect();
+                let clean: Vec<(u8, u32)> = full.iter().copied().filter(|k| k.0 != 0 && k.0 != 11 && seen.insert(k.1)).collect();
                 let mut a = ConnBox::<u16>::new(RoleK::Client, Some(ver));
                 a.restore_packets(full.iter().map(|k| mk(*k)).collect());
                 let mut b = ConnBox::<u16>::new(RoleK::Client, Some(ver));
